@@ -284,6 +284,9 @@ func (c C11) Execute(sc *drv.Scenario, w *drv.World) (*drv.Violation, error) {
 			if op.Op == "newver" && sc.Family == "kv" {
 				m := x.Insts["kv"]
 				for _, k := range []string{"k1", "k2"} {
+					if m == nil {
+						break
+					}
 					rr := m.Resolve(x.D, op.V, k)
 					val := ""
 					if rr.Kind == ReadValue {
